@@ -93,7 +93,7 @@ Exercised ==
        [] c = "adduni_ok" -> ev.name = "AddUnilateral" /\ ev.ok
        [] c = "remuni_ok" -> ev.name = "RemoveUnilateral" /\ ev.ok
        [] c = "donate_ok" -> ev.name = "Donate" /\ ev.ok
-       [] c = "reject" -> ~ev.ok
+       [] c = "reject" -> ~ev.ok /\ ev.name # "Config"
        [] c = "panic" -> ev.panic
        [] c = "deadline_edge" -> ev.name \in CsMsgs /\ ev.ok /\ ev.deadline = pre.now
        [] c = "deadline_rej" -> ev.name \in CsMsgs /\ ~ev.ok /\ Apply(pre, ev).why = "deadline"
